@@ -70,7 +70,7 @@ PROPS = {
     "C14": {
         "module": "MiniMcmcVerif.Props.C14Nuts",
         "obligations": ["MiniMcmcVerif.NUTS.Gen." + n for n in ["buildTree_prime_mem", "buildTree_sel_suffix", "buildTree_leaves_chain", "buildTree_prime_admissible", "doubling_inv",
-                                                                "transition_next_state", "nuts_transition_never_bad", "iterate_logp", "nuts_transition_good_position", "unifLaws_field", "unifLaws_xr"]] + ["MiniMcmcVerif.MH.mh_reject_bad", "MiniMcmcVerif.MH.mh_reject_nan", "MiniMcmcVerif.MH.mh_never_bad",
+                                                                "transition_next_state", "nuts_transition_never_bad", "iterate_logp", "nuts_transition_good_position", "unifLaws_field", "unifLaws_xr"]] + ["MiniMcmcVerif.MH.mh_reject_bad", "MiniMcmcVerif.MH.mh_reject_nan", "MiniMcmcVerif.MH.mh_never_bad", "MiniMcmcVerif.MH.mh_good_state",
                         "MiniMcmcVerif.HMC.hmc_never_bad", "MiniMcmcVerif.HMC.hmc_row_mem", "MiniMcmcVerif.HMC.hmc_good_position",
                         "MiniMcmcVerif.NUTS.nuts_admissible_not_bad", "MiniMcmcVerif.NUTS.nuts_nan_joint",
                         "MiniMcmcVerif.XR.xr_satisfies_laws", "MiniMcmcVerif.XR.xr_satisfies_lawsE"],
@@ -300,7 +300,7 @@ PROPS = {
     "C01": {
         "module": "MiniMcmcVerif.Props.C01Measure",
         "obligations": [MH + n for n in ["accept_probability", "mh_step_rule", "mh_step_accept", "mh_step_reject", "mh_step_mem", "accepts_iff",
-                                         "mh_reject_bad", "mh_reject_nan", "mh_reject_nan_lnu", "mh_never_bad",
+                                         "mh_reject_bad", "mh_reject_nan", "mh_reject_nan_lnu", "mh_never_bad", "mh_good_state",
                                          "accept_region", "ratio_is_exp_logRatio", "flow_eq_min",
                                          "mh_detailed_balance", "trans_row_sum", "trans_balance", "mh_stationary"]]
                        + ["MiniMcmcVerif.XR.xr_satisfies_laws"],
